@@ -246,7 +246,16 @@ def drift_check(chk, bus, scen):
     sel = sel[: (12 if chk.quick else 400)]
     if not sel:
         return
-    groups = [sel[i:i + 4] for i in range(0, len(sel), 4)]
+    # Callers / NoReply are constants of Conn.tla: only scenarios with the same callers and the same no-reply callers
+    # share a TLC run
+    buckets = {}
+    for s in sel:
+        sig = (tuple(sorted({st[1] for st in s["steps"] if st[0] == "call"})),
+               tuple(sorted({st[1] for st in s["steps"] if st[0] == "call" and st[2]})))
+        buckets.setdefault(sig, []).append(s)
+    groups = []
+    for b in buckets.values():
+        groups += [b[i:i + 4] for i in range(0, len(b), 4)]
     base = open(os.path.join(core.SPEC, "trace", "TraceConn.cfg")).read()
 
     def one(gi):
